@@ -110,7 +110,10 @@ InitCase(c) ==
   /\ executed = {} /\ uexec = {} /\ trapped = <<>>
   /\ rets = [k \in DOMAIN c.script |-> <<>>]
 
-Init == \E c \in Cases : InitCase(c)
+\* exec by a non-leader thread (the thread takes over the leader's pid, its siblings vanish without a
+\* wait status) is not modelled at this layer; such programs are judged at the property layer only
+Modelled(c) == \A j \in DOMAIN c.script : KindOf(c.script)[j] = "C" => \A i \in DOMAIN c.script[j] : c.script[j][i].k # "Z"
+Init == \E c \in Cases : Modelled(c) /\ InitCase(c)
 
 Live == tpc # "done"           \* the run has not been torn down yet
 Runs(k) == Live /\ ts[k] = "run"
@@ -123,7 +126,9 @@ Asked(key) == Cardinality({ i \in DOMAIN trapped : trapped[i].m = key })
 
 (* ------------------------------------------------------------------ kernel: stops *)
 \* a pending signal is taken: signal-delivery-stop (a vfork parent sleeps uninterruptibly)
-InVforkWait(k) == sub[k] = "sp" /\ CurOp(k).k = "V" /\ ts[CurOp(k).n] \in {"stop", "held", "run"}
+\* (the child releases its vfork parent when it dies or execs)
+Execd(j) == sub[j] = "xz" \/ \E i \in 1..(pc[j] - 1) : i \in DOMAIN script[j] /\ script[j][i].k = "Z"
+InVforkWait(k) == sub[k] = "sp" /\ CurOp(k).k = "V" /\ ts[CurOp(k).n] \in {"stop", "held", "run"} /\ ~Execd(CurOp(k).n)
 K_Deliver(k) ==
   /\ Runs(k) /\ ~InVforkWait(k) /\ sub[k] # "ex"
   /\ \E s \in pend[k] \cup (IF nchld[Leader(k)] > 0 THEN {SIGCHLD} ELSE {}) :
@@ -178,6 +183,23 @@ K_SysExit(k) ==
             \* the real result: a second mkdirat of the same name fails with EEXIST
             /\ LogT(k, IF CurOp(k).k = "T" /\ CurOp(k).a \in executed THEN -EEXIST ELSE 0, regs[k].d, TRUE)
   /\ UNCHANGED <<ts, ev, pend, nchld, gtok, regs, opts, scnt, lph, esc, cvars, tvars, uexec, trapped>>
+
+\* execve (allowed by the filter) of a process task: with PTRACE_O_TRACEEXEC a PTRACE_EVENT_EXEC stop,
+\* without it the legacy notification: a real SIGTRAP sent to the new image
+K_ExecOp(k) ==
+  /\ Ready(k) /\ sub[k] = "" /\ CurOp(k).k = "Z" /\ ~IsThread(k)
+  /\ sub' = [sub EXCEPT ![k] = "xz"]
+  \* de_thread: the other threads of the process are killed first (they report exit status 0)
+  /\ ts' = [j \in Tasks |-> IF j = k THEN "stop" ELSE IF j \in Group(k) /\ Alive(j) THEN "zombie" ELSE ts[j]]
+  /\ ev' = [j \in Tasks |-> IF j = k THEN (IF opts[k] THEN Ev("exec", 0) ELSE Ev("sig", SIGTRAP))
+                              ELSE IF j \in Group(k) /\ Alive(j) THEN Ev("exit", 0) ELSE ev[j]]
+  /\ UNCHANGED <<pc, pend, nchld, gtok, regs, opts, scnt, lph, esc, cvars, tvars, ovars>>
+\* the new image runs: it carries on with the ops after Z
+K_ExecDone(k) ==
+  /\ Ready(k) /\ sub[k] = "xz"
+  /\ sub' = [sub EXCEPT ![k] = ""] /\ pc' = [pc EXCEPT ![k] = @ + 1]
+  /\ Log(k, 0)
+  /\ UNCHANGED <<ts, ev, pend, nchld, gtok, regs, opts, scnt, lph, esc, cvars, tvars, executed, uexec, trapped>>
 
 K_Untraced(k) ==
   /\ Ready(k) /\ sub[k] = "" /\ CurOp(k).k = "U"
@@ -277,7 +299,7 @@ K_Setsid(k) ==
 
 KStep(k) ==
   \/ K_Deliver(k) \/ K_GroupStop(k)
-  \/ K_SysEnter(k) \/ K_SysExit(k) \/ K_Untraced(k) \/ K_SigQueue(k) \/ K_SigDone(k)
+  \/ K_SysEnter(k) \/ K_SysExit(k) \/ K_Untraced(k) \/ K_ExecOp(k) \/ K_ExecDone(k) \/ K_SigQueue(k) \/ K_SigDone(k)
   \/ K_Spawn(k) \/ K_SpawnRet(k) \/ K_Wait(k)
   \/ K_ExitGroup(k) \/ K_ExitThread(k) \/ K_ExitThreadDone(k) \/ K_FilterKill(k) \/ K_Kill(k) \/ K_Setsid(k)
 KNext == K_Raise \/ K_Exec \/ \E k \in Tasks : KStep(k)
@@ -295,6 +317,11 @@ Resume(k, s) ==
                                      THEN (IF gtok[j] < 2 THEN gtok[j] + 1 ELSE 2) ELSE gtok[j]]
        /\ nchld' = ChldTo(k) /\ UNCHANGED pend
        /\ UNCHANGED scnt
+  ELSE IF ev[k].t = "sig" /\ s = SIGTRAP THEN
+       \* a SIGTRAP is delivered: default action, the process dies
+       /\ Die(Group(k), Ev("killed", SIGTRAP))
+       /\ nchld' = ChldTo(k)
+       /\ UNCHANGED <<gtok, pend, scnt>>
   ELSE /\ ts' = [ts EXCEPT ![k] = "run"]
        /\ ev' = [ev EXCEPT ![k] = NoEv]
        /\ scnt' = IF ev[k].t = "sig" /\ ev[k].x = SIGUSR1 /\ s = SIGUSR1 THEN [scnt EXCEPT ![k] = @ + 1] ELSE scnt
